@@ -252,6 +252,9 @@ func (vc *VC) eval(e *SExpr, env *Env) *Val {
 		vc.evalFail(env, "cannot slice %s", x.Ty)
 	case "call":
 		return vc.evalCall(e, env)
+	case "type":
+		t := vc.resolveType(e.Type, env.pkg, env.imports, false)
+		return &Val{IsType: true, TypeV: t, Ty: t}
 	case "typeassert":
 		x := vc.eval(e.Args[0], env)
 		t := vc.resolveType(e.Type, env.pkg, env.imports, false)
